@@ -65,7 +65,64 @@ func structPath(v ssa.Value, depth int) string {
 	if cv, ok := v.(*ssa.Convert); ok {
 		return structPath(cv.X, depth)
 	}
-	return cleanPath(stripConv(ssau.Path(v)))
+	path := cleanPath(stripConv(ssau.Path(v)))
+	// the same access path does not name the same value once the function has assigned to part
+	// of it (utc.dateTime = utc.dateTime.UTC() in one sibling only): mark it
+	if in, ok := v.(ssa.Instruction); ok && in.Parent() != nil {
+		for _, pre := range reassignedPaths(in.Parent()) {
+			if strings.Contains(path, pre) {
+				path += "~after-assignment-to(" + pre + ")"
+			}
+		}
+	}
+	return path
+}
+
+var reassignedCache = map[*ssa.Function][]string{}
+
+// reassignedPaths lists the access paths of fields of parameters (or of their
+// local copies) that fn itself stores to.
+func reassignedPaths(fn *ssa.Function) []string {
+	if v, ok := reassignedCache[fn]; ok {
+		return v
+	}
+	set := map[string]bool{}
+	for _, b := range fn.Blocks {
+		for _, in := range b.Instrs {
+			st, ok := in.(*ssa.Store)
+			if !ok {
+				continue
+			}
+			fa, ok := st.Addr.(*ssa.FieldAddr)
+			if !ok {
+				continue
+			}
+			pp := strings.TrimPrefix(cleanPath(stripConv(ssau.Path(fa))), "&")
+			if strings.HasPrefix(pp, "p.") || strings.HasPrefix(pp, "a.") {
+				// only copies of parameters (value parameters are spilled to a local named after them)
+				root := pp
+				if i := strings.Index(root[2:], "."); i >= 0 {
+					root = root[2 : 2+i]
+				}
+				isParam := false
+				for _, q := range fn.Params {
+					if q.Name() == root {
+						isParam = true
+					}
+				}
+				if isParam {
+					set[pp] = true
+				}
+			}
+		}
+	}
+	var out []string
+	for k := range set {
+		out = append(out, k)
+	}
+	sort.Strings(out)
+	reassignedCache[fn] = out
+	return out
 }
 
 // operandKeys: the operand's own path, plus "elem(S)" when the operand is an
